@@ -178,6 +178,7 @@ class Run(object):
         self.short_writes = False
         self.short_counter = 0
         self.call_events = 0  # seam events since the current API call began (reset by World.exec_op)
+        self.at_fork_child = []  # os.register_at_fork(after_in_child=...) handlers registered under simulation
 
     def short(self, n):
         """How many of n offered bytes this raw write accepts (seeded, deterministic)."""
@@ -322,11 +323,27 @@ def _active():
     return run
 
 
-def _abspath(p):
+def _fd_path_early(fd):
+    try:
+        return os.readlink("/proc/self/fd/%d" % fd)
+    except OSError:
+        return None
+
+
+def _abspath(p, dir_fd=None):
+    if isinstance(p, int) and not isinstance(p, bool):
+        # an open descriptor used as a path (os.stat(fd), os.listdir(fd), os.scandir(fd))
+        return _fd_path_early(p)
     try:
         p = os.fspath(p)
     except TypeError:
         return None
+    if dir_fd is not None and isinstance(p, (str, bytes)):
+        # *at() variants (shutil.rmtree walks with dir_fd): the name is relative to that directory
+        base = _fd_path_early(dir_fd)
+        q = os.fsdecode(p) if isinstance(p, bytes) else p
+        if base is not None and not q.startswith("/"):
+            return os.path.normpath(os.path.join(base, q))
     if isinstance(p, bytes):
         p = os.fsdecode(p)
     if not isinstance(p, str):
@@ -380,7 +397,7 @@ def _mk_stat(name):
         run = _active()
         if run is None:
             return real(path, *a, **kw)
-        ap = _abspath(path)
+        ap = _abspath(path, kw.get("dir_fd"))
         if not _inside(run, ap):
             return real(path, *a, **kw)
         run.event("probe", name, ap)
@@ -413,7 +430,7 @@ def _mk_single(name, kind, contained=True):
         run = _active()
         if run is None:
             return real(path, *a, **kw)
-        ap = _abspath(path)
+        ap = _abspath(path, kw.get("dir_fd"))
         if ap is None:
             return real(path, *a, **kw)
         if not _inside(run, ap):
@@ -439,7 +456,7 @@ def _mk_rename(name):
         run = _active()
         if run is None:
             return real(src, dst, *a, **kw)
-        asrc, adst = _abspath(src), _abspath(dst)
+        asrc, adst = _abspath(src, kw.get("src_dir_fd")), _abspath(dst, kw.get("dst_dir_fd"))
         if asrc is None or adst is None:
             return real(src, dst, *a, **kw)
         if not _inside(run, adst) or not _inside(run, asrc):
@@ -467,7 +484,7 @@ def _os_open(path, flags, mode=0o777, *a, **kw):
     run = _active()
     if run is None:
         return real(path, flags, mode, *a, **kw)
-    ap = _abspath(path)
+    ap = _abspath(path, kw.get("dir_fd"))
     if ap is None:
         return real(path, flags, mode, *a, **kw)
     writing = flags & (os.O_WRONLY | os.O_RDWR | os.O_CREAT | os.O_TRUNC | os.O_APPEND)
@@ -625,9 +642,11 @@ def _flock(fd, operation):
             ent["ex"] = ex = None
         for t in [t for t, hfd in ent["sh"].items() if not alive((t, hfd))]:
             del ent["sh"][t]
-        if ex is not None and ex[0] != task:
+        # flock locks belong to the open file description: a second open() of the same file conflicts with the
+        # first one even inside one task / process (only the same descriptor may re-lock or convert)
+        if ex is not None and not (ex[0] == task and ex[1] == fd):
             return False
-        if not shared and any(t != task for t in ent["sh"]):
+        if not shared and any(not (t == task and hfd == fd) for t, hfd in ent["sh"].items()):
             return False
         return True
 
@@ -644,7 +663,8 @@ def _flock(fd, operation):
         if operation & fcntl.LOCK_NB:
             raise BlockingIOError(_errno.EWOULDBLOCK, "simulated flock busy")
         if run.sched is None:
-            raise RuntimeError("simulated flock would block forever (single task)")
+            # nobody else exists who could release it: the call never returns
+            raise SimLivelock()
         run.sched.block_on(("flock", key), free)
 
 
@@ -818,7 +838,21 @@ def install():
         if hasattr(os, name):
             _patch(os, name, _mk_fd_write(name, pos))
     tempfile._name_sequence = _SeededNames()
+    if hasattr(os, "register_at_fork"):
+        _patch(os, "register_at_fork", _register_at_fork)
     # tempfile binds "from os import ..."? no: it uses _os.<fn> and _io.open -> patched attrs.
+
+
+def _register_at_fork(*, before=None, after_in_parent=None, after_in_child=None):
+    """Fork handlers registered by code under simulation are kept per run (simulated processes are tasks with
+    a fork-view of the store: the scheduler runs the after_in_child handlers when such a task starts)."""
+    run = _active()
+    if run is None:
+        return _real[("os", "register_at_fork")](before=before, after_in_parent=after_in_parent,
+                                                 after_in_child=after_in_child)
+    if after_in_child is not None:
+        run.at_fork_child.append(after_in_child)
+    return None
 
 
 def real_open(*a, **kw):
